@@ -309,113 +309,10 @@ def _join_coordinates(model, rep):
     # Whether two vertices are merged must not depend on where the meshes
     # lie nor on the unit: the key handed to _remove_duplicate_nodes is
     # ("inv", 0) - or absent / the unrounded coordinates (exact comparison).
-    AFF = ("aff", 1)
-
-    def reduce_axis(call):
-        ax = [k.value for k in call.keywords if k.arg == "axis"]
-        if not ax and len(call.args) >= (
-                2 if src(call.func).startswith("np.") else 1):
-            ax = [call.args[-1]]
-        return ax[0] if ax else None
-
-    def ev(e, depth=0):
-        if depth > 12:
-            return ("bad", "definition chain too deep")
-        if isinstance(e, ast.Constant) and isinstance(
-                e.value, (int, float)):
-            return ("inv", 0)
-        if isinstance(e, ast.Name):
-            if e.id in defs:
-                return ev(defs[e.id], depth + 1)
-            return ("bad", f"unknown name {e.id}")
-        if isinstance(e, ast.Attribute) and e.attr in ("p", "doflocs") \
-                and src(e.value) in ("self", "other"):
-            return AFF
-        if isinstance(e, ast.Attribute) and e.attr == "T":
-            return ev(e.value, depth + 1)
-        if isinstance(e, ast.Subscript):
-            return ev(e.value, depth + 1)
-        if isinstance(e, ast.BoolOp) and isinstance(e.op, ast.Or) and \
-                len(e.values) == 2 and isinstance(e.values[1], ast.Constant):
-            return ev(e.values[0], depth + 1)    # 'x or 1.': fallback for 0
-        if isinstance(e, ast.UnaryOp) and isinstance(e.op, ast.USub):
-            v = ev(e.operand, depth + 1)
-            return ("bad", "negated coordinates") if v == AFF else v
-        if isinstance(e, ast.BinOp):
-            a, b = ev(e.left, depth + 1), ev(e.right, depth + 1)
-            for v in (a, b):
-                if v[0] == "bad":
-                    return v
-            if isinstance(e.op, (ast.Add, ast.Sub)):
-                if a == AFF and b == AFF:
-                    return ("inv", 1) if isinstance(e.op, ast.Sub) else (
-                        "bad", "sum of two positions")
-                if AFF in (a, b):
-                    o = b if a == AFF else a
-                    if o == ("inv", 1) and (a == AFF or isinstance(
-                            e.op, ast.Add)):
-                        return AFF
-                    return ("bad", f"'{src(e)[:40]}' adds a quantity of "
-                                   f"another kind to a position")
-                if a[1] != b[1]:
-                    return ("bad", f"'{src(e)[:40]}' adds quantities of "
-                                   f"different dimension")
-                return a
-            if isinstance(e.op, (ast.Mult, ast.Div)):
-                if AFF in (a, b):
-                    return ("bad", f"'{src(e)[:40]}' scales positions: the "
-                                   f"result depends on where the mesh lies")
-                return ("inv", a[1] + b[1] if isinstance(e.op, ast.Mult)
-                        else a[1] - b[1])
-            return ("bad", f"operator in '{src(e)[:40]}'")
-        if isinstance(e, ast.Call):
-            f = src(e.func)
-            last = f.split(".")[-1]
-            recv = None
-            if isinstance(e.func, ast.Attribute) and src(
-                    e.func.value) not in ("np", "numpy"):
-                recv = e.func.value
-            elif e.args:
-                recv = e.args[0]
-            if last in ("hstack", "vstack", "concatenate", "array") and \
-                    e.args and isinstance(e.args[0], (ast.Tuple, ast.List)):
-                vs = [ev(x, depth + 1) for x in e.args[0].elts]
-                for v in vs:
-                    if v[0] == "bad":
-                        return v
-                return vs[0] if len(set(vs)) == 1 else (
-                    "bad", "stack of quantities of different kinds")
-            if recv is None:
-                return ("bad", f"call {f}")
-            v = ev(recv, depth + 1)
-            if v[0] == "bad":
-                return v
-            if last in ("min", "max", "amin", "amax", "mean", "ptp"):
-                if last == "ptp":
-                    return ("inv", 1) if v == AFF else v
-                if v == AFF and reduce_axis(e) is None:
-                    return ("bad", f"'{src(e)[:40]}' reduces the positions "
-                                   f"over all axes: not carried along by a "
-                                   f"translation")
-                return v
-            if last in ("abs", "absolute", "fabs"):
-                if v == AFF:
-                    return ("bad", f"'{src(e)[:40]}' takes the absolute "
-                                   f"value of positions: the distance from "
-                                   f"the origin, not a size of the mesh")
-                return v
-            if last in ("round", "around", "rint", "floor", "ceil"):
-                if v != ("inv", 0):
-                    return ("bad", f"'{src(e)[:50]}' rounds "
-                                   f"{'positions' if v == AFF else 'lengths'}"
-                                   f" to a fixed number of decimals: an "
-                                   f"absolute tolerance in the unit of the "
-                                   f"coordinates")
-                return v
-            if last in ("copy", "astype", "ascontiguousarray", "asarray"):
-                return v
-            return ("bad", f"call {f}")
-        return ("bad", f"expression {src(e)[:40]}")
+    from ..invariance import AFF, make_evaluator
+    ev = make_evaluator(
+        defs, lambda e: isinstance(e, ast.Attribute) and e.attr in (
+            "p", "doflocs") and src(e.value) in ("self", "other"))
     keyarg = [k.value for k in calls[0].keywords if k.arg == "key"]
     if not keyarg and len(calls[0].args) > 2:
         keyarg = [calls[0].args[2]]
